@@ -857,6 +857,31 @@ def generate_package(seed: int, features: list[str] | None = None, doc_style: st
     return PackageGenerator(seed, features, doc_style).generate()
 
 
+def two_package_container(seed: int, container: str = "box") -> dict:
+    """A source directory that is not a package itself but holds TWO top-level packages (get_api then keeps the directory
+    as root and names the API after it)."""
+    a = generate_package(seed)
+    k = 1
+    b = generate_package(seed + k)
+    while b["top"] == a["top"] or (set(b["files"]) & set(a["files"])):
+        k += 1
+        b = generate_package(seed + k)
+    files = {f"{container}/{p}": t for p, t in a["files"].items()}
+    files.update({f"{container}/{p}": t for p, t in b["files"].items()})
+    meta = {"tokens": dict(a["meta"]["tokens"]), "probes": {}}
+    # tokens are only unique per generated package: keep the first package's tokens, drop the second's docstring checks
+    for key in set(a["meta"]["probes"]) | set(b["meta"]["probes"]):
+        va, vb = a["meta"]["probes"].get(key), b["meta"]["probes"].get(key)
+        if isinstance(va, dict) or isinstance(vb, dict):
+            meta["probes"][key] = dict(va or {}, **(vb or {}))
+        else:
+            meta["probes"][key] = list(va or []) + list(vb or [])
+    return {
+        "files": files, "src_rel": container, "top": a["top"], "features": sorted(set(a["features"]) | set(b["features"]) | {"TWO_TOP_PACKAGES"}),
+        "doc_style": a["doc_style"], "seed": seed, "meta": meta, "name": f"gen2-{seed}", "container": container, "token_scope": a["top"],
+    }
+
+
 # --------------------------------------------------------------------------- corpus
 
 CORPUS = ["various_modules_package", "main_package", "docstring_parser_package"]
